@@ -51,6 +51,7 @@ class _RowList(list):
 
 _active = None
 _orig_publish = None
+MUTANT_PUBLISH = None       # self-test only: a known-bad replacement of Publisher.publish (this process only)
 
 
 def _install(uros):
@@ -146,6 +147,7 @@ class World:
                 line = self.emit(a="ProcPublish", topic=topic, t_now=self.now(), msg=mid)
             else:
                 line = self.emit(a="PublishBegin", topic=topic, ty=self.cur_ty or type(msg).__name__, err="ok", msg=mid)
+                self._begin_ty = self.cur_ty
         elif line.get("a") in ("Wake", "ProcPublish"):
             line["msg"] = mid
         if any(f["topic"] == topic for f in self.stack):
@@ -156,7 +158,7 @@ class World:
         if getattr(msg, "_c20", False):
             msg.data["time"] = float(mid)                  # id travels inside the message
         try:
-            _orig_publish(pub, msg)
+            (MUTANT_PUBLISH or _orig_publish)(pub, msg)
         except BaseException as e:
             self.stack.pop()
             if fr["n"] == 0 and self.callback_error is None:
@@ -171,6 +173,9 @@ class World:
                 self.callback_error = self.callback_error or repr(e)
             raise
         self.stack.pop()
+        if line.get("a") == "PublishBegin" and getattr(self, "_begin_ty", None) is not None \
+                and topic in self.ptype and self._begin_ty != self.ptype[topic]:
+            self.problem("publish/wrong-type/accepted", f"a message of type {self._begin_ty} was accepted on topic {topic} of type {self.ptype[topic]}")
         if topic == "params" and self.inited:
             self.param_hist.append((mid, self.core_params()))
         self.emit(a="PublishEnd", topic=topic, msg=mid)
